@@ -36,6 +36,10 @@ func op(kind, path string) (seq int, f *Fault) {
 	if cur == nil {
 		return -1, nil
 	}
+	if cur.dead {
+		// the process was killed: nothing it still does (deferred clean-ups while the simulation unwinds) reaches the disk
+		return -1, &Fault{Kind: "EIO", OpKind: kind}
+	}
 	if len(cur.Ops) >= MaxOps {
 		// a run that performs this many operations is spinning: stop recording (memory), no faults apply
 		cur.WorldUse["ops-beyond-recording-cap"]++
@@ -58,6 +62,17 @@ func op(kind, path string) (seq int, f *Fault) {
 			cur.Fired = append(cur.Fired, *f)
 			break
 		}
+	}
+	if f != nil && (f.Kind == "SIGTERM" || f.Kind == "SIGINT") {
+		// a signal arrives just before this operation: handlers the program installed get it and the
+		// program goes on; without a handler the process dies here
+		sig := sigByName[f.Kind]
+		if deliverSignal(sig) {
+			return seq, nil
+		}
+		cur.dead = true
+		cur.Killed = f.Kind
+		panic(ExitPanic{Code: 128 + int(sig.(syscall.Signal))}) // (the deferred Unlock runs)
 	}
 	return seq, f
 }
@@ -99,7 +114,11 @@ func (f *File) Fd() uintptr {
 	if f.dev != nil {
 		return ^uintptr(0)
 	}
-	return f.f.Fd()
+	fd := f.f.Fd()
+	mu.Lock()
+	fdNames[fd] = f.name // for Flock
+	mu.Unlock()
+	return fd
 }
 
 func (f *File) Write(p []byte) (int, error) {
@@ -424,11 +443,12 @@ func MkdirTemp(dir, pattern string) (string, error) {
 // TempDir is a directory inside the run's private world, so that temp files are observed.
 func TempDir() string {
 	use("tempdir")
-	d := os.Getenv("VERIFSIM_TMPDIR")
-	if d == "" {
-		return os.TempDir()
+	// as os.TempDir: $TMPDIR, else /tmp (which is outside the run's world: creating files there is refused);
+	// the harness points TMPDIR into the world
+	if d := Getenv("TMPDIR"); d != "" {
+		return d
 	}
-	return d
+	return "/tmp"
 }
 
 // ---------------------------------------------------------------------------------------
